@@ -55,12 +55,12 @@ def groups(tier):
              4: "accepted => master volume takes the message's value (and only then changes)"}
     for part, what in parts.items():
         gs.append(Group("sysex_contract_part%d" % part, "harness/sysex_h.c", "h_realTime_SysEx", enforce="realTime_SysEx",
-                        replace=["realTime_ResetState", "noteUpdateAll"], extract=_extract, unwindset=UW,
+                        replace=["realTime_ResetState", "noteUpdateAll"], extract=_extract, unwindset=UW, object_bits=9,
                         defines=["SPEC_PART=%d" % part] + ([] if part == 1 else ["NO_REACH"]), required=[r"postcondition", r"assigns"], timeout=900, funcs=FUNCS,
                         note=what + "; checksum loop unwound to the 64-byte domain of the property (complete for that domain)"))
     for k in range(16):
         gs.append(Group("sysex_channel_state_ch%d" % k, "harness/sysex_h.c", "h_realTime_SysEx", enforce="realTime_SysEx",
-                        replace=["realTime_ResetState", "noteUpdateAll"], extract=_extract, unwindset=UW,
+                        replace=["realTime_ResetState", "noteUpdateAll"], extract=_extract, unwindset=UW, object_bits=9,
                         defines=["SPEC_CH=%d" % k], required=[r"postcondition"], timeout=600, funcs=FUNCS,
                         note="rejected / master-volume / drum-part messages leave every field of channel %d unchanged (drum part: exactly its own flag, set from the data byte)" % k))
     return gs
